@@ -213,28 +213,49 @@ func ruleResolveOrder(c *Ctx, r *Report, rule string) {
 			r.bad(rule, "missing/"+w, "no path compiles an identifier to "+w, c.pos(e.Decl.Pos()))
 		}
 	}
-	// assignment guarded by canAssign && match(tEQ)
-	_, fd := c.find("parser.resolveIdent")
-	if fd != nil {
-		okGuard := false
-		ast.Inspect(fd.Body, func(n ast.Node) bool {
-			ifs, ok := n.(*ast.IfStmt)
-			if !ok {
-				return true
+	// assignment guarded by canAssign && match(tEQ): every path compiling a SET form decided canAssign to be true and
+	// consumed an '=' before the assigned expression; no path does so with canAssign false
+	{
+		fd := e.Decl
+		okGuard, sets := true, 0
+		for _, o := range e.Outcomes {
+			ops, _ := opsOfTrace(o.Trace)
+			if len(ops) == 0 || !strings.HasPrefix(ops[0], "SET") {
+				continue
 			}
-			be, ok := stripParens(ifs.Cond).(*ast.BinaryExpr)
-			if !ok || be.Op != token.LAND {
-				return true
-			}
-			if c.isObj(be.X, c.paramObj(fd, 1)) {
-				if call, ok := stripParens(be.Y).(*ast.CallExpr); ok && c.calleeName(call) == "parser.match" {
-					if v, ok := c.intConst(call.Args[0]); ok && constNameOf(m.toks, v) == "tEQ" {
-						okGuard = true
-					}
+			sets++
+			can := false
+			for _, ev := range o.Events {
+				if ev == "canAssign=true" {
+					can = true
+				}
+				if ev == "canAssign=false" {
+					can = false
+					okGuard = false
 				}
 			}
-			return true
-		})
+			adv := false
+			for _, t := range o.Trace {
+				if t == "adv" {
+					adv = true
+				}
+				if strings.HasPrefix(t, "sub:E(") && !adv {
+					okGuard = false
+				}
+			}
+			eq := false
+			for _, ev := range o.Events {
+				if ev == "match:tEQ" {
+					eq = true
+				}
+			}
+			if !can || !adv || !eq {
+				okGuard = false
+			}
+		}
+		if sets == 0 {
+			okGuard = false
+		}
 		r.check(okGuard, rule, "assign-guard", "canAssign && match('=')", "assignment must be compiled only under canAssign && p.match(tEQ)", c.pos(fd.Pos()))
 	}
 }
